@@ -7,11 +7,12 @@
    At(i), 1 <= i <= n, so that a 65 537-entry table never has to be materialised.
 
    A walk is a sequence of operations on ONE iterator object:
-       <<"next", _>>, <<"nth", kW>>                                   (may continue)
-       <<"rest", _>>, <<"fold", _>>, <<"skip", kW>>, <<"step_by", kW>>,
+       <<"next", _>>, <<"nth", kW>>, <<"size_hint", _>>               (may continue)
+       <<"rest", _>>, <<"fold", _>>, <<"collect", _>>, <<"skip", kW>>, <<"step_by", kW>>,
        <<"count", _>>, <<"last", _>>                                  (consume the iterator)
-   and the observations are what each call returned.  What an iterator does after it has
-   returned None is left open by the interface, so a walk ends at the first None. *)
+   and the observations are what each call returned.  What an iterator yields after it has
+   returned None is left open by the interface, so the observations end at the first None; the
+   remaining calls of the walk are still made, and must return (a panic there is a panic). *)
 EXTENDS Words
 
 Min2(a, b) == IF a < b THEN a ELSE b
@@ -21,6 +22,7 @@ NthHits(n, pos, kW) == LET k == Val(kW) IN k # Huge /\ k < n - pos
 
 StepPos(n, pos, o) ==
     CASE o[1] = "next" -> Min2(pos + 1, n)
+      [] o[1] = "size_hint" -> pos
       [] o[1] = "nth"  -> IF NthHits(n, pos, o[2]) THEN pos + Val(o[2]) + 1 ELSE n
       [] OTHER         -> n
 
@@ -31,7 +33,8 @@ ObsOf(At(_), n, pos, o) ==
         rem == n - pos
     IN CASE o[1] = "next" -> Opt(At, pos < n, pos + 1)
          [] o[1] = "nth"  -> Opt(At, NthHits(n, pos, o[2]), pos + k + 1)
-         [] o[1] \in {"rest", "fold"} -> [items |-> [j \in 1..rem |-> At(pos + j)]]
+         [] o[1] = "size_hint" -> [hint |-> TRUE]            \* observed only as "returned" (its bounds are outside the properties)
+         [] o[1] \in {"rest", "fold", "collect"} -> [items |-> [j \in 1..rem |-> At(pos + j)]]
          [] o[1] = "skip" -> LET m == IF k = Huge \/ k >= rem THEN 0 ELSE rem - k
                              IN [items |-> [j \in 1..m |-> At(n - m + j)]]
          [] o[1] = "step_by" ->                               \* k >= 1 (std panics on 0)
